@@ -89,3 +89,12 @@ package verifspec
 //@   abstract_rest
 //@   throws_when capacity < 0 || capacity > 2147483647
 //@   throws_msg makechan: size out of range
+
+// a == b on interface values ($interfaceIsEqual): two non-nil values of the same dynamic type that is not comparable
+// (a slice, a map, a function, or a struct or array containing one) make the comparison panic.  One-directional; the
+// element-wise comparison ($equal) is abstracted.
+//@ js prelude.js $interfaceIsEqual
+//@ property C08
+//@   param a: iface, b: iface
+//@   abstract_rest
+//@   throws_when !a.$nil && !b.$nil && a.constructor == b.constructor && !isglobal(a.constructor, "$jsObjectPtr") && !a.constructor.comparable
